@@ -28,6 +28,9 @@ type Cfg struct {
 	// Big asks for at least 8 entities in each top-level map of the translator
 	// (types, comdats, globals, attribute groups, named metadata, metadata).
 	Big bool
+	// CrossBAUnnamed allows blockaddress constants that name a numbered block of another function
+	// (llvm-as-14 mis-resolves them, so only LLVM-free checks set it)
+	CrossBAUnnamed bool
 	// ForceMD asks for generic metadata definitions in every module (otherwise one module in two has them)
 	ForceMD bool
 	// GEPBias makes getelementptr instructions and constant expressions much more frequent.
